@@ -389,8 +389,14 @@ func (c *Client) sendWithWriter(writer io.Writer, packet []byte) error {
 // Loop: Receive data from server
 func (c *Client) recv(keepaliveQuit chan<- struct{}) {
 	defer close(keepaliveQuit)
+	if verifEnabled {
+		defer vpoint("recv.exit")
+	}
 
 	for {
+		if verifEnabled {
+			vpoint("recv.wait")
+		}
 		val, err := stanza.NextPacket(c.transport.GetDecoder())
 		if verifEnabled {
 			vpoint("recv.next", "err", err != nil)
@@ -441,6 +447,10 @@ func (c *Client) recv(keepaliveQuit chan<- struct{}) {
 // This is use to keep the connection open, but also to detect connection loss
 // and trigger proper client connection shutdown.
 func keepalive(transport Transport, interval time.Duration, quit <-chan struct{}) {
+	if verifEnabled {
+		vpoint("ka.start")
+		defer vpoint("ka.exit")
+	}
 	ticker := time.NewTicker(interval)
 	for {
 		select {
